@@ -596,7 +596,7 @@ def run_requests(ctx, sess, drv, stream, reqs, tally, targets=None, cross_target
                 key = {"kind": f"{r.op}:{k}", "lang": t.lang, "leaf": sig.rsplit(".", 1)[-1]}
                 tally.fail(key, f"{t.name}: {r.op} of {r.gt.full_name} differs from the DSDL rules ({k} at {sig})",
                            lambda r=r, t=t, i=i: {"type": f"{r.gt.full_name}.{r.gt.version[0]}.{r.gt.version[1]}", "expr": r.gt.tstr, "op": r.op,
-                                                   "arg": r.text, "target": t.name, "options": t.options, "where": sig, "files": deps_texts(sess.ns, r.gt),
+                                                   "arg": r.text, "target": t.name, "options": t.options, "where": sig, "origin": r.origin, "files": deps_texts(sess.ns, r.gt),
                                                    "expected": fmt_outcome(want_ref[i]), "got": answers[t.name][i][:4000]})
     secs["compare"] = round(secs.get("compare", 0) + time.time() - t0, 2)
     if cross_target:
